@@ -38,6 +38,10 @@ pub enum DOp {
     /// the first contract calls (reply_on Always) a contract built with ContractWrapper::new that has
     /// no reply entry point and needs one: the caller's reply is handed the error text
     CallPlain,
+    /// delegate 4 and undelegate 2 right away (one operation: a pending unbonding)
+    DelegateUndelegate,
+    /// a block update that passes the unbonding period of either configuration
+    BlockLong,
     /// a burst of smart / raw / contract-info queries whose address text is no address at all
     /// (whatever failing queries leave behind must not outlive them, in this App or any other)
     BadAddrQueries,
@@ -190,6 +194,19 @@ fn apply(i: &mut Inst, op: DOp) -> String {
             }
             format!("query-errors={:016x}/{}", hash64(&texts, 9), texts.iter().map(|t| t.len()).sum::<usize>())
         }
+        DOp::DelegateUndelegate => {
+            let a = resp(i.app.execute(u.clone(), StakingMsg::Delegate { validator: "val".into(), amount: coin(4, i.denom) }.into()));
+            let b = resp(i.app.execute(u.clone(), StakingMsg::Undelegate { validator: "val".into(), amount: coin(2, i.denom) }.into()));
+            format!("{} / {}", a, b)
+        }
+        DOp::BlockLong => {
+            i.app.update_block(|b| {
+                b.height += 1;
+                b.time = b.time.plus_seconds(61);
+            });
+            let bal = i.app.wrap().query_balance(i.u.clone(), i.denom).map(|c| c.amount.u128()).unwrap_or(u128::MAX);
+            format!("block={:?} balance={}", i.app.block_info(), bal)
+        }
         DOp::Block => {
             i.app.update_block(next_block);
             format!("block={:?}", i.app.block_info())
@@ -286,7 +303,7 @@ pub fn explore(ctx: &Ctx, report: bool, reversed: bool) -> DetOut {
     // that the order in which the two configurations are first used in this process is fixed:
     // standard first here, the other one first in the second process (`reversed`). Whatever a
     // configuration leaves behind in the process shows as a digest difference between the two.
-    let alpha0 = [DOp::Delegate, DOp::Delegate2, DOp::Block, DOp::Inst, DOp::Send, DOp::Mint, DOp::BadAddrQueries];
+    let alpha0 = [DOp::Delegate, DOp::Delegate2, DOp::Block, DOp::Inst, DOp::Send, DOp::Mint, DOp::BadAddrQueries, DOp::DelegateUndelegate, DOp::BlockLong];
     let h0 = histories(&alpha0, ctx.tier.pick(3, 4));
     let mut solos0: [Vec<Vec<String>>; 2] = [vec![], vec![]];
     let mut digest_0 = 0u64;
